@@ -188,6 +188,15 @@ func (rn *c20Runner) fileID(cs *c20Case, path string) int {
 	return 99
 }
 
+func (rn *c20Runner) hasForeign(cs *c20Case, ns []Node) bool {
+	for _, n := range ns {
+		if rn.fileID(cs, n.File) != 0 || rn.hasForeign(cs, n.Children) {
+			return true
+		}
+	}
+	return false
+}
+
 // ---------------------------------------------------------------- canonical forms
 
 func (rn *c20Runner) showNodes(cs *c20Case, ns []Node, b *strings.Builder) {
@@ -563,6 +572,9 @@ func (rn *c20Runner) runCase(out *vh.Out, cs *c20Case, withPrint bool, tag strin
 	out.Stat("ok.nodes=" + c20Bucket(c20Count(res.nodes)))
 	depth := c20Depth(res.nodes)
 	out.Stat("ok.depth=" + c20Bucket(depth))
+	if rn.hasForeign(cs, res.nodes) {
+		out.Stat("ok.with-nodes-from-imported-file")
+	}
 
 	// T3: the property on the real execution
 	if s := c20WellFormed(res.nodes); s != "" {
@@ -793,6 +805,8 @@ var c20Fixed = []string{
 	"$(a) x y\n",
 	"$(a = 1 2\n",
 	"$() = 1\nx $() y$()\n",
+	"$($(x)) = 1 2\n",
+	"$(m) = 1\n$($(m)) = 2 3\n",
 	"a $(a)\n",
 	"$(x)\n",
 	"x {\n $(m) = 1\n}\n",
@@ -859,6 +873,13 @@ func TestVerifC20Parse(t *testing.T) {
 			}
 		}
 		return
+	}
+
+	// assumption of C20_output_wellformed (UniBrace) and of the name part of the round trip (UniStd)
+	for _, r := range "{}($\"\\" {
+		if unicode.IsLetter(r) || unicode.IsDigit(r) {
+			out.Violation("C20/assumption-unistd", "C20 parse -", fmt.Sprintf("unicode classifies %q as letter or digit", r))
+		}
 	}
 
 	// the configuration files shipped with maddy
